@@ -82,8 +82,8 @@ PROPS = {
         "trusted_base": COMMON_TB + ["modelled, not verified: state_machine.rs, update_check.rs, builder.rs, app_set.rs, common.rs"],
     },
     "C01": {
-        "run": ["EvalC01"],
-        "n": {"quick": 30, "thorough": 300},
+        "run": ["EvalC01", "EvalC01Facts"],
+        "n": {"quick": 30, "thorough": 150},
         "level_text": "Every clause is a theorem about the Gallina model of verify_response + verify_response_with_signature + parse_etag + the id->key map, "
                       "for all byte strings and for ARBITRARY sha256 / DER / ECDSA functions (explicit arguments, no axioms): accepted iff the first ETag is printable and, "
                       "after parse_etag, is hex(s) ':' hex(SHA-256(request body)) with s passing the DER check and verifying under the key the map holds for the id over "
@@ -97,7 +97,7 @@ PROPS = {
         "diff_meaning": "Theorem C01_accept_iff and the rejection theorems determine the result (Ok signature / error variant) uniquely from the inputs and the primitives' verdicts; "
                         "a case where StandardCupv2Handler returns something else (or panics) is an input on which the property fails.",
         "rule": "n exchanges (random/JSON-like bodies 0-2 KiB, random nonce, 1-4 keys incl. duplicate ids, the same key under two ids, id absent from the set) x per-exchange mutation streams: "
-                "3 encodings; single-bit flips of the ETag bytes (64 sampled; thorough: all for one exchange in four), of both bodies, nonce, key id; truncation from both ends; halves swapped/"
+                "3 encodings; single-bit flips of the ETag bytes (128 sampled; thorough: all ~1700 for one exchange in ten), of both bodies, nonce, key id; truncation from both ends; halves swapped/"
                 "doubled/missing; hash prefix/extension; upper and mixed case; extra ':' parts; 20 quoting variants (one-sided, W/ without quotes, nested, 1-4 byte strings); empty/missing header; "
                 "white space; opaque bytes; duplicate ETag headers; re-signed with another key; digest re-composed in the 5 other orders, with each component dropped, with raw bodies, with other "
                 "renderings of id/nonce, with one hash fewer or more; non-DER, truncated, extended, zero-scalar and high-S signatures.  Header values that http::HeaderValue refuses are skipped.  "
